@@ -35,6 +35,7 @@ class FnContract:
     note: str = ""
     yields: dict[int, list[str]] = field(default_factory=dict)  # generator cut points
     ghost_post: list[str] = field(default_factory=list)
+    gen: dict | None = None           # generator (coroutine) verification spec
 
     def label(self, i: int) -> str:
         if i < len(self.ensures_labels) and self.ensures_labels[i]:
